@@ -774,17 +774,28 @@ class Interp:
 			ty = "closure" if path.startswith("{closure@") else strip_generics(path).split("::")[-1]
 			if ty == "closure" and len(named) == 1 and named[0][0] == "self":
 				# rustc's pretty-printer names every capture after the ROOT variable of the captured path,
-				# so several captures of `self.<field>` collapse into one printed `self: ..` entry. The
-				# captures are the temporaries assigned just before the literal, in upvar order.
+				# so several captures of `self.<field>` collapse into one printed `self: ..` entry. How many
+				# captures the closure has is read off its body (the highest field of `_1` it uses); the
+				# captures are then the last that many temporaries assigned before the literal, in upvar order.
 				fr = st.frames[fi]
-				blk = fr.fn.blocks[fr.bb]
-				caps = []
-				for prev in blk[: fr.ip - 1]:
-					mm = re.match(r"^(_\d+) = ", prev)
-					if mm and not re.search(r"-> \[", prev):
-						caps.append(fr.locals.get(int(mm.group(1)[1:])))
-				if len(caps) > 1:
-					named = [("self%d" % k, v) for k, v in enumerate(caps)]
+				pf = fr.fn
+				idx = next((k for k, f in enumerate(self.fns) if f is pf), -1)
+				cfn = self.resolve_fn("@closure", path + "@@" + str(idx), [])
+				ncap = 1
+				if cfn is not None:
+					for blk_ in cfn.blocks.values() if isinstance(cfn.blocks, dict) else cfn.blocks:
+						for stmt in blk_:
+							for mm in re.finditer(r"\(?\*?_1\)?\.(\d+):", stmt):
+								ncap = max(ncap, int(mm.group(1)) + 1)
+				if ncap > 1:
+					blk = fr.fn.blocks[fr.bb]
+					caps = []
+					for prev in blk[: fr.ip - 1]:
+						mm = re.match(r"^(_\d+) = ", prev)
+						if mm and not re.search(r"-> \[", prev):
+							caps.append(fr.locals.get(int(mm.group(1)[1:])))
+					if len(caps) >= ncap:
+						named = [("self%d" % k, v) for k, v in enumerate(caps[-ncap:])]
 			order = self.struct_fields.get(ty)
 			d = dict(named)
 			if order and set(order) == set(d):
@@ -898,6 +909,19 @@ class Interp:
 			return self.switch(st, fr, v, targets, other)
 		m = re.match(r"^drop\((.*)\) -> \[return: bb(\d+), .*\]$", s)
 		if m:
+			hook = self.models.get("@drop")
+			if hook is not None:
+				# a value whose type implements Drop: run the crate's `drop` on it (the model says which)
+				loc = self.resolve(st, fi, parse_place(m.group(1)))
+				try:
+					v = self.read_loc(st, loc)
+				except (MirError, KeyError):
+					v = None
+				dfn = hook(self, st, v)
+				if dfn is not None:
+					fr.ip += 0
+					st.frames.append(Frame(dfn, {dfn.params[0]: Ref(*loc)}, 0, 0, Place(9999, []), int(m.group(2))))
+					return None
 			self.goto(fr, int(m.group(2)))
 			return None
 		m = re.match(r"^assert\((.*)\) -> \[success: bb(\d+).*\]$", s)
